@@ -253,6 +253,118 @@ def stream(hist: int, ix: List[int]) -> bool:
     return hs.run_path(_stream_body, (hist, ix), corner=lambda h, ix: len(ix) == L and hs.sel(ix[L - 1], NK) == NK - 1)
 
 
+# ---------------------------------------------------------------------------------------------------------------------
+# The shipped pair: lark/grammars/python.lark (its _NEWLINE terminal carries the indentation) + PythonIndenter (tab_len 8)
+PY_INDENTS = ['', '  ', '\t', ' \t', '        ']
+PY_LINES = ['if x:', 'pass', 'f(', ')', '', '# c']
+
+if P and P.get('kind') == 'py':
+    from lark import Lark
+    from lark.indenter import PythonIndenter
+    PYLARK = Lark.open_from_package('lark', 'python.lark', ['grammars'], parser='lalr', lexer='basic', postlex=PythonIndenter(), start='file_input')
+    PYLEXER = hs.basic_lexer_of(PYLARK)
+    NPL = len(PY_INDENTS) * len(PY_LINES)
+    PIN_PY = P.get('pin')
+
+
+def _py_reference(lines):
+    """Events of the source lines by CPython's algorithm with the documented width metric (a tab counts tab_len = 8 columns):
+    'I' / 'D' before the first token of a logical line, ('L', n) for physical line n carrying tokens, 'D's at the end."""
+    out = []
+    stack = [0]
+    paren = 0
+    for n, (ind, body) in enumerate(lines, 1):
+        if body in ('', '# c'):
+            continue                                   # blank and comment-only lines do not take part
+        if paren == 0:
+            w = ind.count(' ') + 8 * ind.count('\t')
+            if w > stack[-1]:
+                stack.append(w)
+                out.append('I')
+            else:
+                while w < stack[-1]:
+                    stack.pop()
+                    out.append('D')
+                if w != stack[-1]:
+                    return out, 'DedentError'
+        out.append(('L', n))
+        if body == 'f(':
+            paren += 1
+        elif body == ')':
+            paren -= 1
+            if paren < 0:
+                return out, 'unbalanced'
+    while len(stack) > 1:
+        stack.pop()
+        out.append('D')
+    return out, None
+
+
+def _py_tokenize(text):
+    out = []
+    try:
+        for t in tokenize.generate_tokens(io.StringIO(text).readline):
+            if t.type == tokenize.INDENT:
+                out.append('I')
+            elif t.type == tokenize.DEDENT:
+                out.append('D')
+    except (tokenize.TokenError, IndentationError, SyntaxError):
+        return 'error'
+    return out
+
+
+def _py_body(rec, ls):
+    lines = []
+    for k in range(len(ls)):
+        if k == 0:
+            v = hs.sel(ls[0], len(PY_LINES))            # the first line is not indented (no newline token precedes it)
+            lines.append(('', PY_LINES[v]))
+        else:
+            v = hs.sel(ls[k], NPL)
+            lines.append((PY_INDENTS[v // len(PY_LINES)], PY_LINES[v % len(PY_LINES)]))
+    with hs.untraced():
+        # realised: the text goes through re (a C extension realises it anyway); the solver owns the enumeration of line structures
+        text = ''.join(i + b + '\n' for i, b in lines)
+        rec['key'] = text
+        rec['nontrivial'] = len(lines) > 1
+        want, werr = _py_reference(lines)
+        rec['count'] = {'texts': 1, 'dedent_errors': int(werr == 'DedentError')}
+        if werr == 'unbalanced':
+            return True
+        got = []
+        err = None
+        try:
+            for t in PythonIndenter().process(hs.lex_tokens(PYLEXER, text)):
+                if t.type == '_INDENT':
+                    got.append('I')
+                elif t.type == '_DEDENT':
+                    got.append('D')
+                elif t.type != '_NEWLINE' and (not got or got[-1] != ('L', t.line)):
+                    got.append(('L', t.line))
+        except DedentError:
+            err = 'DedentError'
+        if err != werr:
+            return hs.fail(rec, 'python.lark + PythonIndenter ended with %s, reference: %s' % (err, werr), text=text)
+        if got != want:
+            return hs.fail(rec, 'INDENT/DEDENT structure of python.lark + PythonIndenter differs from the reference', text=text, got=got, want=want)
+        # the real tokenizer where its width metric (tab to the next multiple of 8) coincides with the documented one (tabs first)
+        if werr is None and all(' \t' not in i for i, _ in lines) and sum(b == 'f(' for _, b in lines) == sum(b == ')' for _, b in lines):
+            ts = _py_tokenize(text)
+            if ts != 'error':
+                rec['count']['vs_tokenize'] = 1
+                if [x for x in got if x in ('I', 'D')] != ts:
+                    return hs.fail(rec, 'INDENT/DEDENT sequence differs from the tokenize module', text=text, got=[x for x in got if x in ('I', 'D')], want=ts)
+    return True
+
+
+def py(ls: List[int]) -> bool:
+    """
+    pre: 1 <= len(ls) <= L and (PIN_PY is None or ls[0] == PIN_PY)
+    post: _
+    """
+    return hs.run_path(_py_body, (ls,), corner=lambda ls: len(ls) == L and hs.sel(ls[L - 1], NPL) == NPL - 1)
+
+
 if P:
     PIN = P.get('pin')
     PIN_HIST = P.get('hist', 0)
@@ -272,11 +384,15 @@ def plan(tier, seed):
         for pin in range(len(KINDS)):
             slices.append({'id': 'stream:hist%d:L%d:pin%d' % (hist, Lh, pin), 'func': 'stream', 'params': {'kind': 'stream', 'L': Lh, 'pin': pin, 'hist': hist},
                            'timeout': 240 if quick else 3000, 'twin': pin == len(KINDS) - 1, 'bound': {'tokens': Lh, 'kinds': len(KINDS)}})
+    Lp = 3 if quick else 4
+    for pin in range(len(PY_LINES)):
+        slices.append({'id': 'py:lines%d:first%d' % (Lp, pin), 'func': 'py', 'mode': 'realised', 'params': {'kind': 'py', 'L': Lp, 'pin': pin}, 'timeout': 400 if quick else 3000,
+                       'twin': pin == 0, 'bound': {'lines': Lp, 'indentations': PY_INDENTS, 'line_kinds': PY_LINES}})
     meta = {
         'rule': 'step: one path per (stack depth, indentation spelling, order relation between the symbolic indentation and the symbolic stack entries); '
                 'stream: one path per token stream (lazily realised); non-trivial = contains a newline token',
         'technique': 'CrossHair symbolic execution of the real Indenter (inductive step from an arbitrary symbolic state; bounded streams)',
-        'functions_encoded': ['lark.indenter.Indenter.handle_NL', 'lark.indenter.Indenter._process', 'lark.indenter.Indenter.process'],
+        'functions_encoded': ['lark.indenter.Indenter.handle_NL', 'lark.indenter.Indenter._process', 'lark.indenter.Indenter.process', 'lark.indenter.PythonIndenter', 'lark/grammars/python.lark (_NEWLINE, brackets, %ignore) through BasicLexer'],
         'bounds': {'step': 'stack depth <= 6, values unbounded, indentation <= 4 chars over {space, tab}, tab_len unbounded', 'stream_tokens': L},
         'outside_bounds': ['indentation of the first line (no newline token precedes it)', 'streams with a close bracket that was never opened (lark asserts; the parser rejects the token first)'],
         'stubs_and_assumes': ['step: `fmt % args` with symbolic ints returns fmt unformatted (the DedentError message would realise the symbolic column)', 'tokens are built directly (drive the unit); the newline terminal is the usual (\\n[\\t ]*)+ shape: the indentation is what follows the last newline'],
